@@ -518,6 +518,15 @@ def r8_9(ctx):
         names |= set(ns_ or [])
     chars = sorted({ch for nm in names for ch in nm})
     cl = [cb for cb in prog.closures_of(w)]
+    if not cl:
+        # the per-character test passed by name: `.all(is_modifier_word_char)`
+        from .c09 import _callable_of
+        ow_ = Origins(w)
+        for bb_, t_ in w.calls():
+            if mname(t_) in ("Iterator::all", "Iterator::any") and len(t_["args"]) > 1:
+                cb_ = _callable_of(prog, w, ow_.operand(t_["args"][1]))
+                if cb_ is not None:
+                    cl.append(cb_)
     rejected = []
     if cl and chars:
         for ch in chars:
@@ -534,7 +543,8 @@ def r8_9(ctx):
                 return None
             vals = set()
             for cb in cl:
-                for r in cases(cb, lambda pl, ch=ch: ord(ch) if (pl["l"] == 2 and pl["p"] in ([], ["*"])) else None, oracle):
+                argl = 2 if cb.kind == "Closure" else 1
+                for r in cases(cb, lambda pl, ch=ch, argl=argl: ord(ch) if (pl["l"] == argl and pl["p"] in ([], ["*"])) else None, oracle):
                     if r["end"] == "return":
                         vals.add(r["known"].get(0))
             if vals == {0}:
